@@ -679,6 +679,9 @@ func c20GenXS(g *hx.Gen) string {
 		switch r := g.Intn(12); {
 		case r == 0:
 			j := g.Intn(len(cells) + 3)
+			if g.Chance(0.4) {
+				j = 0 // the reset idiom s = s[:0]: an empty receiver whose spare capacity is live data
+			}
 			toks = append(toks, fmt.Sprintf("t=%d", j))
 			if j > len(cells) {
 				j = len(cells)
